@@ -218,7 +218,7 @@ func recipeEquivalent(key, got, want string) bool {
 		}
 		missing := false
 		for _, g := range strings.Split(want, " ; ") {
-			if !have[g] {
+			if !have[g] && !neverFailingGuard(g) {
 				missing = true
 			}
 			delete(have, g)
@@ -471,4 +471,11 @@ func stateOnlyGuard(g string) bool {
 		}
 	}
 	return true
+}
+
+// neverFailingGuard: a specified guard that tests the error of a call which cannot fail (reading
+// 32 bytes from HKDF). Its absence at a site changes nothing — the value may have been computed,
+// and the error looked at, elsewhere (a constructor caching the tweak).
+func neverFailingGuard(g string) bool {
+	return strings.HasPrefix(g, "io.ReadFull(hkdf.New(") && strings.HasSuffix(g, ",32)).1 == nil")
 }
